@@ -363,8 +363,8 @@ int main(int argc, char **argv) {
             plan.rule += " || every operator sequence of length " + std::to_string(seqlen) + " (16^" + std::to_string(seqlen) + ") with three fixed operand assignments";
         }
         {
-            // unsigned literals above 2^63 under the operators that are defined on the unsigned kind (+ - * / and printing);
-            // comparisons, remainder and bitwise operators work on the signed view and are outside the 64-bit restriction
+            // unsigned literals above 2^63 under + - * /, the comparisons, the remainder and printing: operands and results fit
+            // in 64 bits (bitwise operators work on the signed view and stay outside)
             vx::Stage s4;
             s4.name   = "large-unsigned";
             s4.chunks = 1;
@@ -379,7 +379,7 @@ int main(int argc, char **argv) {
                         judge(b->text, RSet{b->val}, rig, ctx, false);
                     }
                     for (auto &sm : small) {
-                        for (int op : {10, 11, 12, 13}) { // + - * /
+                        for (int op : {10, 11, 12, 13, 2, 3, 4, 5, 6, 7, 14}) { // + - * / and == != >= <= > < %
                             for (int swap = 0; swap < 2; swap++) {
                                 if (!ctx.next()) {
                                     continue;
